@@ -594,3 +594,24 @@ Proof.
   split; [apply wrap_pre_init; ex_side|]. split; [apply wrap_pre_bound; ex_side|].
   split; [apply wrap_pre_bound; ex_side | apply wrap_pre_bound; ex_side].
 Qed.
+
+(** statements as they appear in Props/Properties_C16.v *)
+Lemma wrap_transparent_stmt : forall s peer p,
+  wf_addr peer -> blen p <= 65000 ->
+  blen (c_user (cf s)) <= 256 /\ blen (ms_realm s) <= 128 /\ (forall id, ms_conn s = Some id -> blen id = 20) ->
+  chan_table_ok s -> old_single s ->
+  (short_term (c_compat (cf s)) = true -> find_binding (channels s) peer = None ->
+     (length (ids s) < MAX_SAVED_IDS)%nat /\ blen p mod 4 = 0) ->
+  (is_rfc (c_compat (cf s)) = false -> find_binding (channels s) peer <> None ->
+     old_turn_message (negb (no_aligned (c_compat (cf s)))) p = None) ->
+  exists s' b, (wrap s peer p = (s', WMsg b) \/ wrap s peer p = (s', WRaw b)) /\
+               relay_decode (relay_of s) b = Some (peer, p).
+Proof. intros s peer p H1 H2 H3 H4 H5 H6 H7. apply wrap_transparent. exact (conj H1 (conj H2 (conj H3 (conj H4 (conj H5 (conj H6 H7)))))). Qed.
+Lemma wrap_rfc_stmt : forall s peer p,
+  is_rfc (c_compat (cf s)) = true -> wf_addr peer -> blen p <= 65000 -> chan_table_ok s ->
+  exists s' b, wrap s peer p = (s', WMsg b) /\ relay_decode (relay_of s) b = Some (peer, p).
+Proof.
+  intros s peer p Hr Hw Hp Ht. destruct (find_binding (channels s) peer) as [b|] eqn:E.
+  - exact (wrap_rfc_bound s peer p b Hr E Ht Hp).
+  - exact (wrap_rfc_unbound s peer p Hr E Hw Hp).
+Qed.
